@@ -201,3 +201,14 @@ Theorem C03_dicts_pinned :
   forallb (fun x => smem x spec_aromatic) aromatic_elements && forallb (fun x => smem x aromatic_elements) spec_aromatic = true.
 Proof. exact dicts_pinned. Qed.
 Print Assumptions C03_dicts_pinned.
+
+(* postprocess_parsed_reaction(remap=False): one number per atom of every role; reactant-side numbers pairwise distinct,
+   product-side numbers pairwise distinct.  PARTIAL: distinctness / disjointness of the reagent numbers after the collision
+   re-numbering and the remap=True squeeze are not theorems (tied by correspondence on ~9000 configurations). *)
+Theorem C03_mapping_numbers_reaction_partial : forall ignore rs ps gs mR mP mG,
+  pp_reaction false ignore rs ps gs = Ok (mR, mP, mG) ->
+  NoDup (List.concat mR) /\ NoDup (List.concat mP) /\
+  List.length (List.concat mR) = List.length (List.concat rs) /\ List.length (List.concat mP) = List.length (List.concat ps) /\
+  List.length (List.concat mG) = List.length (List.concat gs).
+Proof. exact mapping_numbers_reaction_partial. Qed.
+Print Assumptions C03_mapping_numbers_reaction_partial.
